@@ -13,9 +13,14 @@ AGREE = ['BezierSeg.v']
 def gen_points(rng, n):
     """control points from pools: magnitudes 1e-3..1e6, integers, halves,
     coincident / collinear configurations"""
-    mode = rng.choice(['rand', 'rand', 'rand', 'int', 'half', 'coincident', 'collinear', 'tiny', 'huge', 'mixed', 'pyint', 'npscalar'])
+    mode = rng.choice(['rand', 'rand', 'rand', 'int', 'half', 'coincident', 'collinear', 'tiny', 'huge', 'mixed', 'pyint', 'npscalar', 'farshort'])
     def rnd(scale):
         return complex(rng.uniform(-scale, scale), rng.uniform(-scale, scale))
+    if mode == 'farshort':       # a short segment far from the origin (ordinary geometry in map-like units)
+        base = complex(rng.uniform(-1, 1), rng.uniform(-1, 1)) * 10 ** rng.uniform(5, 7)
+        if rng.random() < 0.5:
+            base = complex(round(base.real), round(base.imag))
+        return [base + complex(rng.uniform(-8, 8), rng.uniform(-8, 8)) for _ in range(n)], mode
     if mode == 'pyint':          # plain Python ints (real axis): the scalar type must not matter
         pts = [rng.randint(-40, 40) for _ in range(n)]
         if len(set(pts)) == 1: pts[-1] += 7
@@ -226,6 +231,50 @@ def run(rep, tier, seed, replay=None):
                            'reassigned_from': [common.chex(p) for p in rf] if rf else None,
                            'how': './check C03 --replay <this file>'},
                           key=('corr-%d' % code) + ('-after-reassign' if rf else ''))
+        # ---- poly2bez on coefficient sequences of every scalar type: the returned segment is the
+        #      curve of that polynomial (judged on the curve, exactly: integer coefficients)
+        if not replay:
+            from fractions import Fraction
+            import numpy as np
+            from svgpathtools import poly2bez
+            nint = 60 if tier == 'quick' else 600
+            kinds = {}
+            for i in range(nint):
+                deg = rng.choice([1, 2, 3])
+                ci = [complex(rng.randint(-9, 9), rng.randint(-9, 9)) if rng.random() < 0.5 else rng.randint(-9, 9)
+                      for _ in range(deg + 1)]
+                if ci[0] == 0:
+                    ci[0] = 1
+                allreal = all(not isinstance(c, complex) for c in ci)
+                how = rng.choice(['list', 'tuple', 'ndarray', 'poly1d', 'floatlist'] if allreal else ['list', 'tuple', 'ndarray', 'poly1d'])
+                arg = {'list': list(ci), 'tuple': tuple(ci), 'ndarray': np.array(ci), 'poly1d': np.poly1d(ci),
+                       'floatlist': [float(c) for c in ci] if allreal else list(ci)}[how]
+                kinds['%s/%s' % (how, 'int' if allreal else 'complex-int')] = kinds.get('%s/%s' % (how, 'int' if allreal else 'complex-int'), 0) + 1
+                rj = {'kind': 'poly2bez', 'coefficients_highest_first': [str(c) for c in ci], 'container': how,
+                      'python': 'poly2bez(%s)' % ({'list': repr(list(ci)), 'tuple': repr(tuple(ci)), 'ndarray': 'np.array(%r)' % (list(ci),),
+                                                    'poly1d': 'np.poly1d(%r)' % (list(ci),), 'floatlist': repr([float(c) for c in ci]) if allreal else repr(list(ci))}[how])}
+                try:
+                    seg = poly2bez(arg)
+                    bad = None
+                    scale = sum(abs(c) for c in ci) + 1
+                    for tt in (0.0, 0.25, 0.5, 1.0, 1 / 3):
+                        ft = Fraction(tt)
+                        ex_re = sum(Fraction(int(complex(c).real)) * ft ** (deg - k) for k, c in enumerate(ci))
+                        ex_im = sum(Fraction(int(complex(c).imag)) * ft ** (deg - k) for k, c in enumerate(ci))
+                        got = complex(seg.point(tt))
+                        if abs(got - complex(float(ex_re), float(ex_im))) > 1e-12 * scale:
+                            bad = (tt, got, complex(float(ex_re), float(ex_im)))
+                            break
+                    back = [complex(c) for c in seg.poly(return_coeffs=True)]
+                    if bad is None and (len(back) != len(ci) or any(abs(a - complex(b)) > 1e-12 * scale for a, b in zip(back, ci))):
+                        bad = ('poly()', back, ci)
+                except Exception as e:
+                    rep.violation('poly2bez raised %s on integer coefficients' % type(e).__name__, dict(rj, error=repr(e)), key='poly2bez-exception')
+                    continue
+                if bad is not None:
+                    rep.violation('poly2bez(%s coefficients) is not the curve of that polynomial: at %r got %r, exact %r'
+                                  % (how, bad[0], bad[1], bad[2]), rj, key='poly2bez-not-the-polynomial')
+            rep.cov['poly2bez_direct_cases'] = kinds
         if info['agree_failed'] and not rep.violations:
             rep.violation('agreement lemma(s) %s no longer check: generated code differs from the model'
                           % info['agree_failed'],
